@@ -314,6 +314,22 @@ func discharge(g *group, timeoutS int, all bool) *ObligResult {
 	if len(g.obs) > 0 {
 		want = g.obs[0].Want
 	}
+	// obligations with many paths and string reasoning are decided path by
+	// path from the start: the disjunction over all paths is what makes such
+	// queries slow, and slow queries are the ones that flip under load
+	if len(disj) > 3 && disjHasStrings(disj) {
+		sub := dischargeEach(disj, want, timeoutS, all, res)
+		switch sub {
+		case "unsat":
+			res.Result = "discharged"
+			return res
+		case "sat":
+			return res
+		}
+		res.Result = "undecided"
+		res.Backend = "per-path"
+		return res
+	}
 	for i := 0; i < len(disj); i += chunk {
 		j := i + chunk
 		if j > len(disj) {
@@ -364,6 +380,17 @@ func queryVariants(q string, asserts []*Term, want []*Term) []string {
 	return []string{q}
 }
 
+func disjHasStrings(disj []*Term) bool {
+	ds := newDeclSet()
+	for _, d := range disj {
+		ds.walk(d, nil)
+		if ds.strings {
+			return true
+		}
+	}
+	return false
+}
+
 // dischargeEach decides the paths of one obligation one query per path.
 func dischargeEach(disj []*Term, want []*Term, timeoutS int, all bool, res *ObligResult) string {
 	type one struct {
@@ -378,6 +405,10 @@ func dischargeEach(disj []*Term, want []*Term, timeoutS int, all bool, res *Obli
 			defer wg.Done()
 			q := buildQuery([]*Term{disj[i]}, want)
 			out[i] = one{q, SolveVariants(queryVariants(q, []*Term{disj[i]}, want), timeoutS, all)}
+			if os.Getenv("GOVC_DUMP_PATHS") != "" && strings.Contains(res.Name, os.Getenv("GOVC_DUMP_PATHS")) {
+				os.WriteFile(fmt.Sprintf("/tmp/govc-allpath-%d.smt2", i), []byte(q), 0o644)
+				fmt.Fprintf(os.Stderr, "path %d: %s %s %dms\n", i, out[i].r.Status, out[i].r.Backend, out[i].r.Ms)
+			}
 		}(i)
 	}
 	wg.Wait()
@@ -443,7 +474,7 @@ func checkProperty(id, tier string) int {
 		return 1
 	}
 	loadMs := time.Since(start).Milliseconds()
-	timeoutS := 10
+	timeoutS := 20
 	all := false
 	if tier == "thorough" {
 		timeoutS = 60
